@@ -288,6 +288,41 @@ theorem atoi_natDigits (n : Nat) (h : n < 9223372036854775808) : atoi (natDigits
   rw [atoi_unsigned cs f₁ f₂, hall, hval]
   simp [h]
 
+/-- Every character accepted by `isDigit` is one of the ten digit characters. -/
+theorem isDigChar_of_isDigit {c : Char} (h : isDigit c = true) : IsDigChar c := by
+  unfold isDigit at h
+  simp only [Bool.and_eq_true, decide_eq_true_eq] at h
+  obtain ⟨h1, h2⟩ := h
+  rw [Char.le_def] at h1 h2
+  have a : 48 ≤ c.toNat := UInt32.le_iff_toNat_le.1 h1
+  have b : c.toNat ≤ 57 := UInt32.le_iff_toNat_le.1 h2
+  refine ⟨c.toNat - 48, by omega, ?_⟩
+  unfold digitChar
+  have : 48 + (c.toNat - 48) = c.toNat := by omega
+  rw [this, Char.ofNat_toNat]
+
+theorem digChar_order : ∀ d, d < 10 → (digitChar d).toNat = 48 + d ∧ (digitChar d = '0' ↔ d = 0) := by decide
+
+/-- A string of digit characters (possibly empty). -/
+def AllDig (l : List Char) : Prop := ∀ c ∈ l, isDigit c = true
+
+theorem AllDig.tail {c : Char} {l : List Char} (h : AllDig (c :: l)) : AllDig l :=
+  fun x hx => h x (List.mem_cons_of_mem _ hx)
+
+theorem digitVal_le_nine {c : Char} (h : isDigit c = true) : digitVal c ≤ 9 := by
+  obtain ⟨d, hd, rfl⟩ := isDigChar_of_isDigit h
+  rw [digitVal_digitChar d hd]; omega
+
+theorem natOfDigits_lt {l : List Char} (h : AllDig l) : natOfDigits l < 10 ^ l.length := by
+  induction l with
+  | nil => simp [natOfDigits]
+  | cons c cs ih =>
+    have := ih h.tail
+    have h9 := digitVal_le_nine (h c List.mem_cons_self)
+    rw [natOfDigits_cons, List.length_cons, Nat.pow_succ]
+    have : digitVal c * 10 ^ cs.length ≤ 9 * 10 ^ cs.length := Nat.mul_le_mul_right _ h9
+    omega
+
 theorem intStr_nonneg {x : Int} (h : 0 ≤ x) : intStr x = natDigits x.toNat := by
   unfold intStr
   have : ¬ x < 0 := by omega
